@@ -380,16 +380,18 @@ def nfa_to_dfa(n: NFA, start: int, accepts: Set[int]) -> DFA:
 
 @dataclass
 class Rule:
-    """A compiled token rule: DFA of the matched text plus its trailing look-ahead condition."""
+    """A compiled token rule: DFA of the matched text plus its trailing look-ahead condition.
+    A rule whose top level is an alternation may carry a different look-ahead per alternative
+    (`true|false(?!x)`): `variants` lists (DFA, look-ahead) per alternative, `dfa` is their union."""
     dfa: DFA
     look: Lookahead
     lazy: bool
     pattern: str
+    variants: List[Tuple[DFA, Lookahead]] = field(default_factory=list)
 
 
 def _split_trailing(sub, alpha: Alphabet) -> Tuple[list, Lookahead]:
     items = list(sub)
-    # unwrap a single capturing group that wraps the whole rule: "(...)" as SLY adds
     look = Lookahead()
     while items:
         op, av = items[-1]
@@ -425,23 +427,48 @@ def _split_trailing(sub, alpha: Alphabet) -> Tuple[list, Lookahead]:
     return items, look
 
 
-def compile_rule(pattern: str, flags: Sequence[str] | int, alpha: Alphabet) -> Rule:
-    fv = flags if isinstance(flags, int) else flags_value(flags)
-    sub = parse(pattern, fv)
-    items = list(sub)
-    # look through wrapping groups to find trailing assertions: ((?:...)(?!x)) as SLY wraps patterns
-    look = Lookahead()
-    inner = items
-    path = []
-    while len(inner) == 1 and inner[0][0] is sre_c.SUBPATTERN and not (inner[0][1][1] | inner[0][1][2]):
-        inner = list(inner[0][1][3])
-    body, look = _split_trailing(inner, alpha)
+def _unwrap(items: list) -> list:
+    while len(items) == 1 and items[0][0] is sre_c.SUBPATTERN and not (items[0][1][1] | items[0][1][2]):
+        items = list(items[0][1][3])
+    return items
+
+
+def _compile_alternative(items: list, alpha: Alphabet) -> Tuple[DFA, Lookahead, bool]:
+    body, look = _split_trailing(_unwrap(list(items)), alpha)
     for op, av in body:
         _reject_inner_assertions(op, av)
     b = Builder(alpha)
     s, e = b.build(body)
-    d = nfa_to_dfa(b.nfa, s, {e})
-    return Rule(d, look, b.lazy_seen, pattern)
+    return nfa_to_dfa(b.nfa, s, {e}), look, b.lazy_seen
+
+
+def compile_rule(pattern: str, flags: Sequence[str] | int, alpha: Alphabet) -> Rule:
+    fv = flags if isinstance(flags, int) else flags_value(flags)
+    sub = parse(pattern, fv)
+    inner = _unwrap(list(sub))
+    # a trailing assertion shared by the whole rule
+    body, outer_look = _split_trailing(inner, alpha)
+    body = _unwrap(body) if len(body) == 1 else body
+    alts: List[list]
+    if len(body) == 1 and body[0][0] is sre_c.BRANCH:
+        alts = [list(a) for a in body[0][1][1]]
+    else:
+        alts = [body]
+    variants: List[Tuple[DFA, Lookahead]] = []
+    lazy = False
+    for a in alts:
+        d, look, lz = _compile_alternative(a, alpha)
+        lazy = lazy or lz
+        if outer_look.allowed is not None:
+            look.allowed = outer_look.allowed if look.allowed is None else look.allowed & outer_look.allowed
+        look.boundary = look.boundary or outer_look.boundary
+        variants.append((d, look))
+    union = variants[0][0]
+    for d, _ in variants[1:]:
+        union = product_dfa(union, d, lambda x, y: x or y)
+    looks = {(v[1].allowed, v[1].boundary) for v in variants}
+    look = variants[0][1] if len(looks) == 1 else Lookahead()
+    return Rule(union, look, lazy, pattern, variants)
 
 
 def _reject_inner_assertions(op, av):
@@ -463,7 +490,7 @@ def _reject_inner_assertions(op, av):
 
 def compile_dfa(pattern: str, flags: Sequence[str] | int, alpha: Alphabet) -> DFA:
     r = compile_rule(pattern, flags, alpha)
-    if r.look.allowed is not None or r.look.boundary:
+    if any(v[1].allowed is not None or v[1].boundary for v in r.variants):
         raise AnalysisError(f"pattern {pattern!r} has a trailing assertion; use compile_rule")
     return r.dfa
 
